@@ -514,7 +514,10 @@ func (n *Nodis) Type(key string) string {
 
 // Scan the keys
 func (n *Nodis) Scan(cursor int64, match string, count int64, typ ds.ValueType) (int64, []string) {
-	keyLen := int64(n.store.metadata.Len())
+	// the index is copied under its lock and walked afterwards: walking it unlocked raced with every command that
+	// creates or deletes a key, and a key lock must not be awaited while the index lock is held
+	names, metas := n.store.records()
+	keyLen := int64(len(names))
 	if keyLen == 0 {
 		return 0, nil
 	}
@@ -526,7 +529,7 @@ func (n *Nodis) Scan(cursor int64, match string, count int64, typ ds.ValueType) 
 	tx := newTx(n.store)
 	var iterCursor int64 = 0
 	finished := true
-	n.store.metadata.Scan(func(key string, m *metadata) bool {
+	visit := func(key string, m *metadata) bool {
 		iterCursor++
 		if cursor--; cursor > 0 {
 			return true
@@ -541,8 +544,9 @@ func (n *Nodis) Scan(cursor int64, match string, count int64, typ ds.ValueType) 
 			return false
 		}
 		count--
-		meta := tx.rLockKey(key)
-		defer meta.commit()
+		tx.rLockKey(key)
+		// release through the transaction, which forgets the record (releasing the record directly left it listed as held)
+		defer tx.commit()
 		matched, _ := filepath.Match(match, key)
 		if matched && !m.expired(now) {
 			if typ != 0 && m.valueType != typ {
@@ -551,7 +555,12 @@ func (n *Nodis) Scan(cursor int64, match string, count int64, typ ds.ValueType) 
 			keys = append(keys, key)
 		}
 		return true
-	})
+	}
+	for i, key := range names {
+		if !visit(key, metas[i]) {
+			break
+		}
+	}
 	if finished {
 		return 0, keys
 	}
